@@ -12,7 +12,7 @@ from __future__ import annotations
 from ..facts import AnalysisError
 from ..terms import const, show, strip_sites
 from ..util import InlineOnly, NoInline, P, calls_to, engine, loc, param_at
-from .ordering import (PROTO, TS, Ctx, atomic_notifications, expiry_once, reboot_before_entries, reject_before_record)
+from .ordering import (arming, cancel_on_removal, PROTO, TS, Ctx, atomic_notifications, expiry_once, reboot_before_entries, reject_before_record)
 
 INST = "sd.ServiceInstance"
 ANN = "sd.ServiceAnnouncer"
@@ -32,6 +32,9 @@ def check(run, prog, tier):
     cx = Ctx(run, prog)
     atomic_notifications(cx, "A1", "unsubscribed")
     expiry_once(cx, "A1")
+    # a stale TTL timer would report a live entry gone: cancel-on-replace and arming are part of truthfulness
+    cancel_on_removal(cx, "T1")
+    arming(cx, "T2")
     reject_before_record(cx, "N1")
 
     # ---- N1: the rejection reaches handle_subscribe, which records nothing and nacks
